@@ -11,6 +11,7 @@ import importlib
 import json
 import multiprocessing
 import os
+import zlib
 import sys
 import time
 import traceback
@@ -298,15 +299,22 @@ def run(prop, tier, seed):
         if skip:
             continue
         corpus_n += 1
-        for h in rec.get("history") or []:
+        import tempfile
+        cwd0 = os.getcwd()
+        with tempfile.TemporaryDirectory(prefix="gvp_") as td:       # checks that write files (C18) must not write into /verif
+            os.chdir(td)
             try:
-                sc.run_case(h)
-            except Discard:
-                pass
-        try:
-            f = sc.run_case(rec["case"])
-        except Discard:
-            f = None
+                for h in rec.get("history") or []:
+                    try:
+                        sc.run_case(h)
+                    except Discard:
+                        pass
+                try:
+                    f = sc.run_case(rec["case"])
+                except Discard:
+                    f = None
+            finally:
+                os.chdir(cwd0)
         if f is not None:
             r = _fail_record(sc, rec["case"], f)
             r["from_corpus"] = os.path.relpath(path, HERE)
@@ -320,7 +328,9 @@ def run(prop, tier, seed):
         total = int(total * scale)
         per = max(1, total // nsh)
         for k in range(nsh):
-            tasks.append((prop, sc.name, tier, per, seed * 1000 + k, k, nsh, active_by_sub.get(sc.name, [])))
+            # the sub-check's name salts the seed: sub-checks that share a strategy must not draw the same cases
+            salt = zlib.crc32(sc.name.encode()) % 1000003
+            tasks.append((prop, sc.name, tier, per, (seed * 1000 + k) * 1000003 + salt, k, nsh, active_by_sub.get(sc.name, [])))
     nproc = int(os.environ.get("VERIF_JOBS", "16"))
     nproc = max(1, min(nproc, len(tasks)))
     ctx = multiprocessing.get_context("fork")
